@@ -1,0 +1,30 @@
+//go:build verif
+
+package nsx
+
+// Exports for the verification harness of property C20. Added file only.
+
+// VerifC20Parse calls ParseConfig and returns the error text.
+func VerifC20Parse(data []byte, fName string) string {
+	s := &State{}
+	_, err := s.ParseConfig(data, fName)
+	if err != nil {
+		return err.Error()
+	}
+	return ""
+}
+
+// VerifC20Diff parses device and Netspoc config and calls diffConfig.
+// Returns number of changes or parse error.
+func VerifC20Diff(device, spoc []byte) (int, string) {
+	s := &State{}
+	c1, err := s.ParseConfig(device, "device")
+	if err != nil {
+		return 0, "device: " + err.Error()
+	}
+	c2, err := s.ParseConfig(spoc, "router")
+	if err != nil {
+		return 0, "router: " + err.Error()
+	}
+	return len(diffConfig(c1.(*NsxConfig), c2.(*NsxConfig))), ""
+}
